@@ -8,6 +8,10 @@ R18.1  in Preprocessor::calculateHash no value derived from Location::line/col p
        integral narrowing cast before it is appended.
 R18.2  both token sources (Preprocessor::mTokens and every Preprocessor::mFileCache entry) are
        iterated and each loop appends str(), line and col.
+R18.5  the contributions of the files are not accumulated with a commutative operator (xor/add of sub-hashes loses
+       order and, for xor, cancels equal contributions).  Rules 1, 2 and 5 look at calculateHash together with the
+       helpers of lib/preprocessor.cpp it calls.
+R18.6  the key depends on the name of every loaded file (simplecpp::FileData::filename is read by the key functions).
 R18.3  in CppCheck::checkInternal every path to the calculateHash call for the analysed file passes
        Preprocessor::inlineSuppressions, and CppCheck::calculateHash dumps Suppressions::nomsg.
 R18.4  AnalyzerInformation::skipAnalysis compares the stored hash attribute with the full decimal
@@ -27,8 +31,49 @@ def width(t):
     return WIDTH.get(t, 64)
 
 
+INTEGRAL = ('std::size_t', 'size_t', 'unsigned long', 'unsigned int', 'unsigned long long', 'std::uint64_t', 'std::uint32_t', 'uint64_t', 'uint32_t', 'int', 'long')
+COMM_OPS = {'^=': '^', '+=': '+', '|=': '|', '&=': '&', '*=': '*'}
+
+
+def commutative_accumulations(body):
+    """`acc OP= e` / `acc = acc OP e` inside a loop, acc integral, e a call result that does not mention acc, OP commutative:
+    the accumulated value is independent of the order of the contributions (and for ^ two equal ones cancel).
+    The hash_combine idiom (`seed ^= v + C + (seed << 6) + (seed >> 2)`) mentions acc on the right and is not matched."""
+    out = []
+    for lp in walk(body):
+        if lp.get('k') not in ('ForStmt', 'WhileStmt', 'CXXForRangeStmt', 'DoStmt'):
+            continue
+        for n in walk(lp.get('body') or {}):
+            acc = rhs = None
+            if n.get('k') == 'CompoundAssignOperator' and n.get('op') in COMM_OPS:
+                acc, rhs = strip(n['c'][0]), n['c'][1]
+            elif n.get('k') == 'BinaryOperator' and n.get('op') == '=':
+                r = strip(n['c'][1])
+                if r is not None and r.get('k') == 'BinaryOperator' and r.get('op') in COMM_OPS.values():
+                    l0 = strip(n['c'][0])
+                    for a, b in ((r['c'][0], r['c'][1]), (r['c'][1], r['c'][0])):
+                        if strip(a).get('di') is not None and strip(a).get('di') == l0.get('di'):
+                            acc, rhs = l0, b
+            if acc is None or acc.get('k') != 'DeclRefExpr' or (acc.get('t') or '').replace('const ', '') not in INTEGRAL:
+                continue
+            if any(y.get('di') == acc.get('di') for y in walk(rhs)):
+                continue
+            if not any(y.get('k') in ('CallExpr', 'CXXMemberCallExpr', 'CXXOperatorCallExpr') for y in walk(rhs)):
+                continue
+            if n not in out:
+                out.append(n)
+    return out
+
+
+_POSITIVE_EXAMPLE = {'k': 'CompoundStmt', 'c': [{'k': 'ForStmt', 'l': 1, 'body': {'k': 'CompoundStmt', 'c': [
+    {'k': 'CompoundAssignOperator', 'op': '^=', 'l': 2, 'c': [{'k': 'DeclRefExpr', 't': 'std::size_t', 'di': '1:1', 'n': 'h'},
+                                                               {'k': 'CallExpr', 'fn': 'g', 'c': []}]}]}}]}
+
+
 def run(ctx):
     F = ctx.facts
+    ctx.rule('R18.6', 'the key identifies the set of loaded files, not only their tokens')
+    ctx.rule('R18.5', 'sub-hashes of the files are combined order- and multiplicity-sensitively')
     ctx.rule('R18.1', 'no integral narrowing between simplecpp::Location::{line,col} and the hashed string in '
                       'Preprocessor::calculateHash')
     ctx.rule('R18.2', 'both token sources are iterated and every loop that appends str() also appends line and col')
@@ -36,60 +81,87 @@ def run(ctx):
     ctx.rule('R18.4', 'the cache acceptance test compares the whole key')
 
     ph = F.one('Preprocessor::calculateHash')
-    body = F.body(ph)['body']
     where = '%s:%d' % (ph['file'], ph['line'])
+    # the key function set: calculateHash and the helpers of its own file it (transitively) calls
+    reach = F.reachable([ph], stop=lambda f: f['file'] != ph['file'])
+    K = [v[0] for v in reach.values() if v[0]['file'] == ph['file'] and F.body(v[0]) is not None]
+    bodies = [(f, F.body(f)['body']) for f in K]
+    ctx.counts['functions computing the preprocessor key'] = len(K)
 
     # R18.1
     uses = []
-    for n, parents in walk_parents(body):
-        if n.get('k') == 'MemberExpr' and n.get('n') in ('simplecpp::Location::line', 'simplecpp::Location::col',
-                                                         'simplecpp::Location::fileIndex'):
-            narrowing = None
-            src_w = width(n.get('t'))
-            for p in reversed(parents):
-                k = p.get('k', '')
-                if k.endswith('CastExpr') and p.get('ck') in ('IntegralCast', 'IntegralToBoolean', 'NoOp') or k == 'CStyleCastExpr':
-                    if p.get('ck') == 'IntegralCast' and width(p.get('t')) < src_w:
-                        narrowing = p
-                        break
-                    continue
-                if k in ('ImplicitCastExpr',):
-                    continue
-                break
-            uses.append((n, narrowing))
-    fields_seen = {n['n'].rsplit('::', 1)[1] for n, _ in uses}
-    for n, nar in uses:
+    for f, body in bodies:
+        for n, parents in walk_parents(body):
+            if n.get('k') == 'MemberExpr' and n.get('n') in ('simplecpp::Location::line', 'simplecpp::Location::col',
+                                                             'simplecpp::Location::fileIndex'):
+                narrowing = None
+                src_w = width(n.get('t'))
+                for p in reversed(parents):
+                    k = p.get('k', '')
+                    if k.endswith('CastExpr') and p.get('ck') in ('IntegralCast', 'IntegralToBoolean', 'NoOp') or k == 'CStyleCastExpr':
+                        if p.get('ck') == 'IntegralCast' and width(p.get('t')) < src_w:
+                            narrowing = p
+                            break
+                        continue
+                    if k in ('ImplicitCastExpr',):
+                        continue
+                    break
+                uses.append((n, narrowing, f))
+    fields_seen = {n['n'].rsplit('::', 1)[1] for n, _, _ in uses}
+    for n, nar, f in uses:
         fld = n['n'].rsplit('::', 1)[1]
-        idx = sum(1 for m, _ in uses if m['n'] == n['n'] and (m['l'], m['col']) < (n['l'], n['col']))
+        idx = sum(1 for m, _, _ in uses if m['n'] == n['n'] and (m['l'], m['col']) < (n['l'], n['col']))
         ctx.ob('R18.1', 'narrow:%s#%d' % (fld, idx), nar is None,
                ('token %s is appended without loss' % fld) if nar is None else
                'token %s (%s) is converted to %s before it is hashed: edits that shift code by a multiple of 2^%d '
                '%ss leave the key unchanged' % (fld, n.get('t'), nar.get('t'), width(nar.get('t')), fld),
-               '%s:%d' % (ph['file'], n['l']))
-    ctx.floor('R18.1 line/col uses in Preprocessor::calculateHash', len(uses), 4)
+               '%s:%d' % (f['file'], n['l']))
+    for fld in ('line', 'col'):
+        ctx.ob('R18.1', 'position:%s' % fld, fld in fields_seen, ('the key depends on every token\'s %s' % fld) if fld in fields_seen else
+               'no function computing the key reads simplecpp::Location::%s: edits that only move code leave the key unchanged' % fld, where)
 
     # R18.2
-    srcs = {a['n'] for a in ph['acc']}
+    srcs = {a['n'] for f in K for a in f['acc']}
     for fld in ('Preprocessor::mTokens', 'Preprocessor::mFileCache'):
         ctx.ob('R18.2', 'source:' + fld, fld in srcs,
                '%s %s iterated by the key' % (fld, 'is' if fld in srcs else 'is NOT'), where)
     loops = []
-    for n in walk(body):
-        if n.get('k') in ('ForStmt', 'WhileStmt', 'CXXForRangeStmt'):
-            inner = [x for x in walk(n.get('body') or {}) if x.get('k') in ('ForStmt', 'WhileStmt', 'CXXForRangeStmt')]
-            has_str = any(x.get('fn') == 'simplecpp::Token::str' for x in walk(n))
-            if has_str and not any(any(y.get('fn') == 'simplecpp::Token::str' for y in walk(i)) for i in inner):
-                loops.append(n)
-    for i, lp in enumerate(loops):
+    for f, body in bodies:
+        for n in walk(body):
+            if n.get('k') in ('ForStmt', 'WhileStmt', 'CXXForRangeStmt'):
+                inner = [x for x in walk(n.get('body') or {}) if x.get('k') in ('ForStmt', 'WhileStmt', 'CXXForRangeStmt')]
+                has_str = any(x.get('fn') == 'simplecpp::Token::str' for x in walk(n))
+                if has_str and not any(any(y.get('fn') == 'simplecpp::Token::str' for y in walk(i)) for i in inner):
+                    loops.append((f, n))
+    for i, (f, lp) in enumerate(loops):
         have = {x['n'].rsplit('::', 1)[1] for x in walk(lp) if x.get('k') == 'MemberExpr' and x.get('n', '').startswith('simplecpp::Location::')}
         ok = {'line', 'col'} <= have
         ctx.ob('R18.2', 'loop#%d' % i, ok,
-               'token loop appends str() and %s' % (sorted(have) or 'no location'), '%s:%d' % (ph['file'], lp['l']))
-    ctx.floor('R18.2 token loops', len(loops), 2)
-    # the loop result must reach std::hash over the whole string
-    hashed = any(x.get('k') == 'CXXOperatorCallExpr' and 'hash' in (x.get('fn') or '') for x in walk(body))
-    ctx.ob('R18.2', 'std::hash', hashed, 'the accumulated string is hashed as a whole by std::hash' if hashed else
-           'no std::hash<std::string> call found on the accumulated string', where)
+               'token loop appends str() and %s' % (sorted(have) or 'no location'), '%s:%d' % (f['file'], lp['l']))
+    ctx.floor('R18.2 token loops', len(loops), 1)
+    # the result must pass through a hash function (std::hash) somewhere in the key functions
+    hashed = any(x.get('k') == 'CXXOperatorCallExpr' and 'hash' in (x.get('fn') or '') for f, body in bodies for x in walk(body))
+    ctx.ob('R18.2', 'std::hash', hashed, 'the accumulated token text is hashed by std::hash' if hashed else
+           'no std::hash call found in the functions computing the key', where)
+
+    # R18.6 the identity of every loaded file is part of the key
+    names = any(a['n'] == 'simplecpp::FileData::filename' for f in K for a in f['acc'])
+    ctx.ob('R18.6', 'file-identity', names, 'the key includes the name of every loaded file (a header without tokens still changes it)' if names else
+           'the key covers only tokens: creating or removing a header that has no tokens (empty / comments only) leaves the key unchanged although '
+           'missingInclude findings depend on it', where)
+
+    # R18.5 sub-results are combined order- and multiplicity-sensitively
+    comm = []
+    for f, body in bodies:
+        comm += [(f, n) for n in commutative_accumulations(body)]
+    if not commutative_accumulations(_POSITIVE_EXAMPLE):
+        raise AnalysisBroken('R18.5 self-test: the detector does not match its positive example')
+    ctx.ob('R18.5', 'combination', not comm,
+           'no commutative accumulation of integral sub-hashes (the token text of all files is concatenated / mixed in order)' if not comm else
+           'sub-hashes are accumulated with a commutative operator at %s: the key does not change when two contributions swap (two headers exchange '
+           'their contents) and, for xor, when two equal contributions are edited alike (they cancel)' %
+           ', '.join('%s:%s (`%s`)' % (f['file'], n['l'], n.get('op')) for f, n in comm),
+           '%s:%s' % ((comm[0][0]['file'], comm[0][1]['l']) if comm else (ph['file'], ph['line'])))
 
     # R18.3
     ci = F.one('CppCheck::checkInternal')
